@@ -16,13 +16,14 @@ type eventUnsub struct {
 }
 
 type eventStream struct {
-	subs map[*PID]bool
+	// subscribers by address and id, so that equal PIDs are one subscriber.
+	subs map[pidKey]*PID
 }
 
 func newEventStream() Producer {
 	return func() Receiver {
 		return &eventStream{
-			subs: make(map[*PID]bool),
+			subs: make(map[pidKey]*PID),
 		}
 	}
 }
@@ -33,9 +34,9 @@ func newEventStream() Producer {
 func (e *eventStream) Receive(c *Context) {
 	switch msg := c.Message().(type) {
 	case eventSub:
-		e.subs[msg.pid] = true
+		e.subs[pidKey{address: msg.pid.GetAddress(), id: msg.pid.GetID()}] = msg.pid
 	case eventUnsub:
-		delete(e.subs, msg.pid)
+		delete(e.subs, pidKey{address: msg.pid.GetAddress(), id: msg.pid.GetID()})
 	default:
 		// check if we should log the event, if so, log it with the relevant level, message and attributes
 		logMsg, ok := c.Message().(EventLogger)
@@ -43,7 +44,7 @@ func (e *eventStream) Receive(c *Context) {
 			level, msg, attr := logMsg.Log()
 			slog.Log(context.Background(), level, msg, attr...)
 		}
-		for sub := range e.subs {
+		for _, sub := range e.subs {
 			c.Forward(sub)
 		}
 	}
